@@ -733,7 +733,7 @@ pub fn run(ctx: &Ctx) -> Outcome {
         }
         let short = base.bytes.len() <= 17;
         // short outputs: every chunking (the deviation bound exceeds the number of octets); longer: <= 2 (quick) / 3 (thorough) deviations
-        let max_dev = if short && !case.pending { 32 } else if short { 4 } else if quick { 2 } else { 3 };
+        let max_dev = if short && !case.pending { 32 } else if short { 4 } else if quick { 3 } else { 4 };
         let max_dev = if case.via_shutdown && base.bytes.len() <= 17 { 3 } else { max_dev };
         let share = ((budget * 0.45 - ctx.elapsed()).max(1.0)) / (wcases.len() - i) as f64;
         let h = WriteHarness { case, index: i, baseline: base.bytes.clone() };
@@ -771,7 +771,7 @@ pub fn run(ctx: &Ctx) -> Outcome {
                 replay: json!({"harness": "c12.read", "case": i, "name": case.name, "choices": []}),
             });
         }
-        let max_dev = if quick { 2 } else { 3 };
+        let max_dev = if quick { 3 } else { 4 };
         let share = ((budget * 0.75 - ctx.elapsed()).max(1.0)) / (rcases.len() - i) as f64;
         let h = ReadHarness { case, index: i, baseline: base.got.clone() };
         let rep = explore(&h, &ExploreCfg::new(max_dev, std::time::Instant::now() + std::time::Duration::from_secs_f64(share), false));
